@@ -15,7 +15,7 @@
    path are tied to the code by correspondence and checked per case against the per-nucleotide oracle. *)
 From Coq Require Import List String Ascii Arith Bool.
 From PC Require Import Base.Sexp.
-From PC Require Import Base.Codes Comp.Syntax Comp.Compile Comp.EmitProofs Comp.Fix Comp.FixProofs Comp.FixComposite Sys.System Sys.FixFrame Comp.FixShape Sys.DesSys Sys.FixSys Sys.FixSignalSpec.
+From PC Require Import Base.Codes Comp.Syntax Comp.Compile Comp.EmitProofs Comp.Fix Comp.FixProofs Comp.FixComposite Sys.System Sys.FixFrame Comp.FixShape Sys.DesSys Sys.FixSys Sys.FixSignalSpec Sys.LoadWf Sys.FixLeaf.
 Import ListNotations.
 
 Theorem C12_position_is_intersection : forall old fixed k, List.length old = List.length fixed -> inter_consts old fixed = (k, FOk) ->
@@ -141,3 +141,12 @@ Theorem C12_unknown_name_only_warns : forall c kind name fixed rest,
   fix_all (OComp c) ((kind, name, fixed) :: rest) = fix_all (OComp c) rest.
 Proof. exact unknown_name_is_skipped. Qed.
 Print Assumptions C12_unknown_name_only_warns.
+
+(* ... and what each leaf fix does: at a port of a well-formed component it is the fix of the port's flattened base-sequence
+   references - of the reverse-complemented view when the binding is starred - left to right with their own slices of the
+   string (a wrong length is the error), so C12_composite_positions gives the per-position intersections for signals too *)
+Theorem C12_leaf_fix_is_flat_fix : forall c x wc s, WF c -> port_ok c x ->
+  leaf_fix x wc s c = if negb (Nat.eqb (List.length s) (ref_len c x)) then (c_bases c, FFail "length")
+                      else fix_brefs (c_bases c) (ref_base c (restar x wc)) s.
+Proof. exact leaf_fix_flat. Qed.
+Print Assumptions C12_leaf_fix_is_flat_fix.
